@@ -133,6 +133,44 @@ def F_index_non_integer(P, rng, proc):
     ix = _cmp(); v = mk_index(mk_var(rng.choice(arrs).name), ix); s = mk_assign(v, mk_int(1)); return s, "illegal indexing with a non-integer", ix, ix, False
 
 
+def _matrix_setup(P, rng, proc, nested=True):
+    """adds (valid) helper declarations: a nested array type, a procedure taking it by reference, and a local of that type in `proc`"""
+    k = rng.randint(100, 999)
+    tname, pname, vname = "Mat%d" % k, "takesMat%d" % k, "mat%d" % k
+    te = mk_array_type(3, mk_array_type(4, mk_named_type("int"))) if nested else mk_array_type(3, mk_named_type("int"))
+    td = mk_typedecl(tname, te)
+    callee = mk_proc(pname, [mk_param("m", mk_named_type(tname), True)])
+    # the type must be declared before its uses: put both in front of everything
+    gen.insert_decl(P, 0, callee); gen.insert_decl(P, 0, td)
+    v = mk_vardecl(vname, mk_named_type(tname), None, proc)
+    proc.node.vars.append(v.node); proc.locals.append(v); proc.names.add(vname); gen.rebuild_proc(proc)
+    return tname, pname, vname
+
+
+def F_arg_array_row_for_matrix(P, rng, proc):
+    """a row of a nested array passed where the whole array type is expected: different types although one declaration created both"""
+    tname, pname, vname = _matrix_setup(P, rng, proc)
+    a = mk_index(mk_var(vname), mk_int(0)); s = mk_call(pname, [a])
+    return s, "procedure `%s` argument `1` type mismatch" % pname, a, a, False
+
+def F_assign_matrix_to_row(P, rng, proc):
+    tname, pname, vname = _matrix_setup(P, rng, proc)
+    s = mk_assign(mk_index(mk_var(vname), mk_int(1)), mk_var(vname)); return s, "assignment has different types", s, s, False
+
+def F_arg_other_array_type(P, rng, proc):
+    """an array of another (anonymous) array type with a different size passed by reference"""
+    tname, pname, vname = _matrix_setup(P, rng, proc, nested=False)
+    other = "m"                     # same name as the callee's parameter: types are still different (other size, other declaration)
+    if other in proc.names: return None
+    v = mk_vardecl(other, mk_array_type(5, mk_named_type("int")), None, proc)
+    proc.node.vars.append(v.node); proc.locals.append(v); proc.names.add(other); gen.rebuild_proc(proc)
+    a = mk_var(other); s = mk_call(pname, [a]); return s, "procedure `%s` argument `1` type mismatch" % pname, a, a, False
+
+def F_compare_arrays(P, rng, proc):
+    tname, pname, vname = _matrix_setup(P, rng, proc, nested=False)
+    e = mk_bin(mk_var(vname), rng.choice(["=", "<"]), mk_var(vname)); s = mk_if(e, mk_empty()); return s, "comparison requires integer operands", e, e, False
+
+
 def decl_fault(build):
     """build(P, rng) -> (decl, min index, message, culprit token, ...)"""
     def f(P, rng):
@@ -206,7 +244,8 @@ def X_main_missing(P, rng):
 
 SEMANTIC = [F_undefined_variable, F_undefined_procedure, F_not_a_variable, F_too_few, F_too_many, F_arg_must_be_variable, F_if_not_boolean, F_while_not_boolean,
             F_arg_type_mismatch, F_arg_type_mismatch_array, F_index_non_array, F_assign_different_types, F_call_non_procedure, F_call_type, F_operator_different_types,
-            F_comparison_non_integer, F_arithmetic_non_integer, F_assign_requires_int, F_index_non_integer]
+            F_comparison_non_integer, F_arithmetic_non_integer, F_assign_requires_int, F_index_non_integer,
+            F_arg_array_row_for_matrix, F_assign_matrix_to_row, F_arg_other_array_type, F_compare_arrays]
 BUILD = [D_main_not_a_procedure, D_redeclaration_as_procedure, D_redeclaration_as_type, D_undefined_type, D_not_a_type, D_must_be_ref, D_redeclaration_as_parameter, D_redeclaration_as_variable]
 FAULTS = [(f.__name__[2:], stmt_fault(f)) for f in SEMANTIC] + [(f.__name__[2:], decl_fault(f)) for f in BUILD] + \
          [("main_with_parameters", X_main_with_parameters), ("main_missing", X_main_missing)]
